@@ -17,11 +17,13 @@ PREPROC = ['include', 'require', 'create_memzone', 'define', 'if', 'elif', 'else
 MN_POOL = ['ld', 'lda', 'ld.w', 'ld.b', 'st', 'sta', 'mov', 'mov16', 'a', 'x', 'jmp', 'j', 'add.c', 'adc', 'push2', 'p', 'inc', 'in',
            'sub_w', 'br.eq', 'br', 'q7', '_brk', 'ld_', '_t_', 'push.b', 'push.r',
            # mnemonics that contain the spelling of a keyword of the constant-definition syntax
-           'bequ', 'sequ2', 'equ8']
+           'bequ', 'sequ2', 'equ8', 'MvX', 'SWP']
 REG_POOL = ['a', 'b', 'x', 'sp', 'hl', 'ix', 'r0', 'r1', 'r10', 'mar', 'acc', 'sp_', '_fp', 'b0', 'b1', 'b10', 'ah', 'bh', 'c0h',
             # accepted register names that are assembler keywords in another letter case
             'ZERO', 'Fill', 'ORG', 'Byte0']
-MACRO_POOL = ['push2x', 'mov2', 'ld2', 'm.dot', 'jsr2', 'st', '_push2', 'call_', 'push', 'add', 'mov.w', 'ld.x', 'jequ']
+MACRO_POOL = ['push2x', 'mov2', 'ld2', 'm.dot', 'jsr2', 'st', '_push2', 'call_', 'push', 'add', 'mov.w', 'ld.x', 'jequ',
+              # spelled with capitals in the configuration: a mnemonic all the same
+              'LdAB', 'PUSHW']
 
 
 # free text of the definition that ends up inside generated JSON / XML / YAML files
